@@ -528,9 +528,10 @@ static void plan_c12(void)
         if (di <= 0) vh_violation("create-refused", "create returned %d", di);
         else if (stripe_open(&s, J, ct, 37, PAT_RAMP, NULL) == 0) {
             uint8_t *w = malloc(s.flen); int nI = I.k + I.m;
-            int fis[3] = { 0, s.n - 1, J.k };
-            for (int q = 0; q < 3; q++) {
-                int fi = fis[q]; if (q && fi == fis[0]) continue; if (q == 2 && fi == fis[1]) continue;
+            int fis[32] = { 0, s.n - 1, J.k }; int nfis = 3;
+            if (thorough && s.n <= 12) { nfis = s.n; for (int i = 0; i < s.n; i++) fis[i] = i; }     /* thorough: every fragment of the foreign stripe as base */
+            for (int q = 0; q < nfis; q++) {
+                int fi = fis[q]; if (nfis == 3) { if (q && fi == fis[0]) continue; if (q == 2 && fi == fis[1]) continue; }
                 const uint8_t *base = (uint8_t *)enc_frag(&s, fi);
 #define C12(namefmt, ...) do { char nm[96]; snprintf(nm, sizeof nm, namefmt, __VA_ARGS__); if (vh_case_begin("f%d/%s", fi, nm)) { vh_nontrivial(); c12_one(di, &I, w, s.flen, nm); } } while (0)
                 memcpy(w, base, s.flen); C12("%s", "pristine");
@@ -666,8 +667,16 @@ static void plan_c20(void)
         { EC_BACKEND_LIBERASURECODE_RS_VAND, 1, 2, 2 }, { EC_BACKEND_LIBERASURECODE_RS_VAND, 5, 3, 3 },
     };
     uint64_t lens[] = { 0, 0 };
-    for (int ci = 0; ci < 9; ci++) for (int li = 0; li < (thorough ? 2 : 1); li++) {
-        struct shape sh = cfg[ci]; int n = sh.k + sh.m;
+    /* thorough: additionally every (k,m) with k+m <= 7 of rs_vand and k+m <= 5 of the two ISA-L adapters, and two more flat-XOR shapes */
+    static struct shape all[128]; int nall = 0;
+    for (int i = 0; i < 9; i++) all[nall++] = cfg[i];
+    if (thorough) {
+        for (int n2 = 2; n2 <= 7; n2++) for (int k2 = 1; k2 < n2; k2++) { struct shape t = { EC_BACKEND_LIBERASURECODE_RS_VAND, k2, n2 - k2, n2 - k2 }; int dup = 0; for (int i = 0; i < nall; i++) if (all[i].be == t.be && all[i].k == t.k && all[i].m == t.m) dup = 1; if (!dup) all[nall++] = t; }
+        for (int b = 0; b < 2; b++) for (int n2 = 2; n2 <= 5; n2++) for (int k2 = 1; k2 < n2; k2++) { struct shape t = { b ? EC_BACKEND_ISA_L_RS_CAUCHY : EC_BACKEND_ISA_L_RS_VAND, k2, n2 - k2, n2 - k2 }; all[nall++] = t; }
+        { struct shape t1 = { EC_BACKEND_FLAT_XOR_HD, 6, 6, 4 }, t2 = { EC_BACKEND_FLAT_XOR_HD, 5, 5, 4 }; all[nall++] = t1; all[nall++] = t2; }
+    }
+    for (int ci = 0; ci < nall; ci++) for (int li = 0; li < (thorough ? 2 : 1); li++) {
+        struct shape sh = all[ci]; int n = sh.k + sh.m;
         uint64_t a = (uint64_t)sh.k * word_bytes(sh.be); lens[0] = 2 * a + 3; lens[1] = 16 * a;
         uint32_t full = (1u << n) - 1;
         for (uint32_t S = 1; S <= full; S++) {
